@@ -77,7 +77,7 @@ PROPERTIES = {
         "min_obligations": 1000,
     },
     "C08": {
-        "contracts": [transform.Reduce, transform.ReduceTuple, transform.Percentile, transform.ReduceNativeOnly],
+        "contracts": [transform.Reduce, transform.ReduceTuple, transform.Percentile, transform.ReduceNativeOnly, transform.ReduceInfNative],
         "level": "other",
         "min_obligations": 400,
         "explanation": "proved (relative to NumPy's own reductions, uninterpreted): which function is applied to which values along which axis, the remaining axes, metadata, scalar results, tuple axes as one flatten + reduction; bounded stand-in: median (both skipna settings) and ptp / all / any with skipna=True, whose implementation branches on the data and goes through numpy.ma.",
